@@ -106,7 +106,8 @@ def gen_config(rnd, m):
         # observers that capture the declared variables themselves: a focus-free (total) probe,
         # or immediate probes with a declared variable as context of a later binding
         specific = list(declared) + (rnd.sample(names, min(len(names), 2)) if names else [])
-    return {"instr": instr, "supplied": supplied, "how": how, "specific": specific}
+    abstainers = [n for n in supplied if rnd.random() < 0.5]
+    return {"instr": instr, "supplied": supplied, "how": how, "specific": specific, "abstainers": abstainers}
 
 
 def run_config(mod, m, cfg, argi, events):
@@ -159,6 +160,16 @@ def run_config(mod, m, cfg, argi, events):
                 cms.append(Overlay.tweaking({so: val}))
             else:
                 cms.append(Overlay.rewriting({so: (lambda d, val=val: val)}))
+    for name in cfg.get("abstainers", []):
+        # a more recently activated rule on the same declaration that abstains: the supplied value
+        # of the earlier rule must still be used
+        if cfg["instr"] == "tooled":
+            so = select(f"f > {name}", env=ns)
+            cms.append(Overlay.rewriting({so: (lambda d: ABSENT)}))
+        else:
+            p = probing(f"f > {name}", env=ns, overridable=True)
+            p.override(lambda d: ABSENT)
+            cms.append(p)
     entered = []
     try:
         for cm in cms:
